@@ -49,12 +49,41 @@ def check(tier, seed):
             h, v, missing = bad[0]
             ck.violation({"kind": "overload", "history": h, "verdict": [str(x) for x in v], "missing": missing},
                          "C02 under overload: " + ("; ".join(x[2] for x in v) if v else "tasks never delivered: %s" % missing))
+    # two priority lanes on one source stream (monitor only: the model's sources have one id sequence): a low-priority batch
+    # whose ids are below the watermark the high-priority lane has already announced must still be routed, once, to its owners
+    lanes = [["I 1 2", "C 0", "C 1", "S 0 50 2 40 0 h1 41 1 h2", "SL 0 30 2 20 0 l1 21 1 l2", "S 0 60 1 55 1 h3", "SL 0 33 1 31 0 l3", "E"],
+             ["I 2 2", "C 0", "C 1", "S 1 500 1 400 1 h1", "SL 1 90 3 70 0 l1 71 1 l2 72 0 l3", "E"]]
+    lerr, limpl = R.run_impl(lanes, "c02l")
+    if lerr:
+        ck.obligation("priority lanes run", False, lerr[:1500])
+    else:
+        lbad = []
+        for h, ev in zip(lanes, limpl):
+            v, info = R.monitor(h, ev)
+            missing = [pay for pays in info["received"].values() for pay in pays if pay not in info["fwd"]]
+            wrong = [x for x in v if x[0] == "C02" and ("owned by" in x[2] or "sent twice" in x[2])]
+            if missing or wrong:
+                lbad.append((h, missing, wrong))
+        ck.obligation("a source multiplexing a high- and a low-priority lane on one stream (low-lane ids below the high lane's watermark): every task is routed once, to its owner", not lbad,
+                      "; ".join("never delivered %s %s" % (m, [x[2] for x in w]) for _, m, w in lbad))
+        if lbad and not ck.violations:
+            h, missing, wrong = lbad[0]
+            ck.violation({"kind": "lanes", "history": h, "missing": missing, "verdict": [str(x) for x in wrong]}, "C02 with two priority lanes: tasks never delivered %s" % missing)
     return ck.finish(rule="as C01 plus batches containing unroutable tasks and completion rounds; monitor: every forwarded task was received, is on its owner's stream, at most once, payload "
                           "unchanged, per-(source,target) order kept, proxy ids strictly increasing, task-bearing watermark above last id and above every earlier watermark, everything delivered "
                           "after the completion rounds; non-trivial = multi-task batch with >= 2 sources or targets")
 
 
 def replay(data):
+    if data.get("kind") == "lanes":
+        err, impl = R.run_impl([data["history"]], "c02lr")
+        if err:
+            print(err)
+            return 1
+        v, info = R.monitor(data["history"], impl[0])
+        missing = [pay for pays in info["received"].values() for pay in pays if pay not in info["fwd"]]
+        print("undelivered:", missing)
+        return 1 if missing else 0
     if data.get("kind") == "overload":
         err, impl = R.run_impl([data["history"]], "c02r")
         if err:
